@@ -75,6 +75,7 @@ def replay_case(case):
     want = [list(r) for r in case["rows"]]
     fails = []
     for rep, X in (("ndarray1d", x.copy()), ("ndarray2d", x.reshape(-1, 1).copy()), ("Series", pd.Series(x.copy())),
+                   ("ndarray1d-int64", x.astype(np.int64)),
                    ("DataFrame", pd.DataFrame({"v": x.copy()}, index=pd.RangeIndex(7, 7 + n)))):
         inner = stub(cps)
         params_before = repr(inner.get_params())
@@ -142,7 +143,7 @@ def run(tier: str) -> int:
     chk = Check(PROP, tier)
     chk.rule = ("stage A/B: every integer series (values -1..2) x every changepoint set x 6 statistics (sum, mean, min, max, "
                 "median, a user count statistic) x all integer bounds lo <= hi within the constants, replayed around a "
-                "stub detector for 4 input representations; stage C: PELT / MovingWindow / SeededBinarySegmentation inside. "
+                "stub detector for 5 input representations; stage C: PELT / MovingWindow / SeededBinarySegmentation inside. "
                 "Non-trivial = at least one flagged segment (B) / reported anomaly or changepoint (C); distinct by hash.")
     chk.assumptions = ["TLC/SANY and the Json module", "integer data so that mean/median comparisons with the bounds are exact"]
     with Workdir(PROP) as wd:
